@@ -308,7 +308,8 @@ impl WriteAheadLog {
                 return Ok(());
             }
             // Block zero is full, create first current_block
-            self.current_block = Some(WalBlock::new(self.block_size));
+            let next_id = self.get_next_block();
+            self.current_block = Some(WalBlock::alloc(next_id, self.block_size));
         }
 
         // Write to current_block
@@ -355,31 +356,20 @@ impl WriteAheadLog {
     }
 
     pub fn perform_flush(&mut self) -> io::Result<()> {
-        // Block 0 always exists, additional blocks start at index 1
-        let mut block_number: u64 = 1;
-        let mut write_offset = self.block_size as u64;
+        // Block 0 always exists, block N lives at offset N * block_size
 
         // Flush queued blocks
         while let Some(block) = self.flush_queue.pop_front() {
+            let write_offset = block.metadata().block_number * self.block_size as u64;
             self.file.seek(SeekFrom::Start(write_offset))?;
             self.file.write_all(block.as_ref())?;
-            block_number += 1;
-            write_offset += self.block_size as u64;
         }
 
-        // Flush current block if it has data
+        // Flush the current block. It stays in memory and is rewritten in place by the next flush.
         if let Some(ref block) = self.current_block {
-            if block.metadata().used_bytes > 0 {
-                self.file.seek(SeekFrom::Start(write_offset))?;
-                self.file.write_all(block.as_ref())?;
-                block_number += 1;
-            }
-        }
-
-        // Update header metadata
-        self.header.metadata_mut().wal_header.total_blocks = block_number;
-
-        if let Some(block) = self.current_block.take() {
+            let write_offset = block.metadata().block_number * self.block_size as u64;
+            self.file.seek(SeekFrom::Start(write_offset))?;
+            self.file.write_all(block.as_ref())?;
             self.header.metadata_mut().wal_header.last_block_used =
                 block.metadata().used_bytes as u32;
         } else {
